@@ -7,6 +7,8 @@ def wrap(kind, tiers):
         functions=["process_data (lib/xfrm/src/%s.c)" % nm],
         bound="one process_data call: input 0..4 bytes, output space 0..4 bytes, flush mode NONE/FULL, library backlog 0..3 bytes, every library behaviour the contract stub allows")
 OBLIGATIONS += [wrap(1, ["quick", "thorough"]), wrap(2, ["quick", "thorough"]), wrap(3, ["quick", "thorough"]), wrap(4, ["quick", "thorough"])]
+OBLIGATIONS.append(dict(wrap(1, ["quick", "thorough"]), name="codec_wrapper_corrupt_input_gzip", defines=dict(KIND=1, CORRUPT=1), reach=["library_error", "done"],
+    bound="one decompressing process_data call: input 0..4 bytes, output space 0..4 bytes, the library may report Z_DATA_ERROR / Z_NEED_DICT / Z_MEM_ERROR without progress at any call"))
 OBLIGATIONS.append(dict(name="codec_magic_detection", harness="harness/C15_magic.c", sources=[], included_sources=["lib/xfrm/src/compress.c"], unwind=10,
     unwindset={"memcmp.0": 8}, tiers=["quick", "thorough"], timeout=200, reach=["detected", "plain"],
     functions=["xfrm_compressor_id_from_magic (lib/xfrm/src/compress.c)"], bound="every buffer of 0..8 bytes (exact-size heap object)"))
